@@ -692,4 +692,25 @@ def reload (st : State) : State :=
 
 end
 
+
+/-! ### setters of the `Directory` interface (what MFS re-applies after loading a directory) -/
+
+/-- `SetMaxLinks(n)` -/
+def setMaxLinks (st : State) (v : Int) : State :=
+  match st.dir with
+  | .basic b => { st with dir := .basic { b with s := { b.s with maxLinks := v } } }
+  | .hamt hd => { st with dir := .hamt { hd with s := { hd.s with maxLinks := v } } }
+
+/-- `SetHAMTShardingSize(n)` -/
+def setThr (st : State) (v : Int) : State :=
+  match st.dir with
+  | .basic b => { st with dir := .basic { b with s := { b.s with thr := v } } }
+  | .hamt hd => { st with dir := .hamt { hd with s := { hd.s with thr := v } } }
+
+/-- `SetSizeEstimationMode(m)` (a basic directory recomputes its estimate when the mode changes) -/
+def setEstMode (g : Globals) (st : State) (m : Nat) : State :=
+  match st.dir with
+  | .basic b => { st with dir := .basic (b.setMode g m) }
+  | .hamt hd => { st with dir := .hamt { hd with s := { hd.s with pmode := some m } } }
+
 end C15
